@@ -39,7 +39,8 @@ ApplyEdit(m, e) ==
     [] e.op = "add_enum_item" -> [m EXCEPT !.enums[e.e].items = Append(@, e.item)]
     [] e.op = "skip"         -> m
 
-EditOps == <<"table_name", "table_schema", "table_alias", "table_note", "col_name", "col_type", "col_flag", "col_default",
+\* (flag edits are listed several times: the layout of PRIMARY KEY clauses depends on how many pk columns a table has)
+EditOps == <<"table_name", "table_schema", "table_alias", "table_note", "col_name", "col_type", "col_flag", "col_flag", "col_flag", "col_default",
              "col_note", "enum_name", "ref_type", "ref_inline", "ref_name", "ref_actions", "add_column", "add_index",
              "remove_index", "add_enum_item">>
 
@@ -62,7 +63,7 @@ ChooseEdit(sd, i, m) ==
                                ty |-> IF m.enums # <<>> /\ Coin(sd, K(50 + i, 0, 5), 50)
                                       THEN [k |-> "enum", e |-> Num(sd, K(50 + i, 0, 6), 1, Len(m.enums))]
                                       ELSE [k |-> "str", v |-> Pick(sd, K(50 + i, 0, 7), NewTypes)]]
-    [] op = "col_flag"     -> [op |-> op, t |-> t, c |-> c, v |-> Pick(sd, K(50 + i, 0, 5), <<"pk", "unique", "notnull", "autoinc">>)]
+    [] op = "col_flag"     -> [op |-> op, t |-> t, c |-> c, v |-> Pick(sd, K(50 + i, 0, 5), <<"pk", "pk", "pk", "unique", "notnull", "autoinc">>)]
     [] op = "col_default"  -> [op |-> op, t |-> t, c |-> c, df |-> ModelDefault(Pick(sd, K(50 + i, 0, 5), Defaults))]
     [] op = "col_note"     -> [op |-> op, t |-> t, c |-> c, v |-> Pick(sd, K(50 + i, 0, 5), NewTexts)]
     [] op = "enum_name"    -> IF m.enums = <<>> THEN skip ELSE [op |-> op, e |-> Num(sd, K(50 + i, 0, 5), 1, Len(m.enums)), v |-> fresh]
